@@ -218,11 +218,16 @@ Fixpoint handed_sum (ops : list op) (vs : list oval) : Z :=
   | _, _ => 0
   end.
 
-Lemma step_charge c fx m st o : 0 <= rs_rl st ->
+(* Message.Reset re-arms the budget: the accounting below is per incarnation of the message
+   (between two resets) *)
+Definition is_reset (o : op) : bool := match o with OReset _ => true | _ => false end.
+Definition no_reset (ops : list op) : bool := forallb (fun o => negb (is_reset o)) ops.
+
+Lemma step_charge c fx m st o : 0 <= rs_rl st -> is_reset o = false ->
   0 <= rs_rl (fst (step c fx m st o)) /\
   rs_rl (fst (step c fx m st o)) + handed o (snd (step c fx m st o)) <= rs_rl st.
 Proof.
-  intros Hr. destruct o; cbn [step]; try (cbn [fst snd handed push rs_rl]; lia).
+  intros Hr Hnr. destruct o; try discriminate Hnr; cbn [step]; try (cbn [fst snd handed push rs_rl]; lia).
   - pose proof (root_charge c m (rs_rl st) Hr) as [H1 H2].
     destruct (root c m (rs_rl st)) as [r rl]. cbn [fst snd push rs_rl handed] in *.
     destruct r; lia.
@@ -236,15 +241,16 @@ Proof.
     destruct (walk _ _ _ _ _ _ _ _) as [t rl]. cbn [fst snd rs_rl handed] in *. lia.
 Qed.
 
-Lemma run_charge c fx m : forall ops st, 0 <= rs_rl st ->
+Lemma run_charge c fx m : forall ops st, 0 <= rs_rl st -> no_reset ops = true ->
   0 <= rs_rl (fst (run c fx m st ops)) /\
   rs_rl (fst (run c fx m st ops)) + handed_sum ops (snd (run c fx m st ops)) <= rs_rl st.
 Proof.
-  induction ops as [|o ops IH]; intros st Hr; cbn [run].
+  induction ops as [|o ops IH]; intros st Hr Hn; cbn [run].
   - cbn. lia.
-  - pose proof (step_charge c fx m st o Hr) as [H1 H2].
+  - cbn [no_reset forallb] in Hn. apply andb_prop in Hn. destruct Hn as [Hn1 Hn2].
+    pose proof (step_charge c fx m st o Hr ltac:(destruct (is_reset o); [discriminate|reflexivity])) as [H1 H2].
     destruct (step c fx m st o) as [st1 v]. cbn [fst snd] in *.
-    specialize (IH st1 H1). destruct (run c fx m st1 ops) as [st2 vs]. cbn [fst snd handed_sum] in *. lia.
+    specialize (IH st1 H1 Hn2). destruct (run c fx m st1 ops) as [st2 vs]. cbn [fst snd handed_sum] in *. lia.
 Qed.
 
 Lemma run_app c fx m : forall a b st,
@@ -266,7 +272,10 @@ Proof. unfold init_rlimit, defaultTraverseLimit. dif; lia. Qed.
        hence that sum is at most the configured limit,
    (3) a refused request leaves the budget at 0 (readPtr_limit_spec), after which every
        request of positive size is refused. *)
-Theorem traversal_bound_seq c fx m ops : 0 <= cfg_T c ->
+Lemma no_reset_app a b : no_reset (a ++ b) = true -> no_reset a = true /\ no_reset b = true.
+Proof. unfold no_reset. rewrite forallb_app. apply andb_prop. Qed.
+
+Theorem traversal_bound_seq c fx m ops : 0 <= cfg_T c -> no_reset ops = true ->
   let st := fst (run c fx m (init_state c) ops) in
   let vs := run_ops c fx m ops in
   0 <= rs_rl st /\
@@ -274,13 +283,13 @@ Theorem traversal_bound_seq c fx m ops : 0 <= cfg_T c ->
   handed_sum ops vs <= init_rlimit c /\
   (forall ops1 ops2, ops = ops1 ++ ops2 -> rs_rl st <= rs_rl (fst (run c fx m (init_state c) ops1))).
 Proof.
-  intros HT st vs. pose proof (init_rlimit_nonneg c HT) as H0.
-  pose proof (run_charge c fx m ops (init_state c) H0) as [H1 H2].
+  intros HT Hnr st vs. pose proof (init_rlimit_nonneg c HT) as H0.
+  pose proof (run_charge c fx m ops (init_state c) H0 Hnr) as [H1 H2].
   fold st in H1, H2. unfold run_ops in vs. fold (init_state c) in vs. fold vs in H2. cbn [init_state rs_rl] in H2.
   repeat split; try lia.
-  intros ops1 ops2 ->. subst st. rewrite run_app. cbn [fst].
-  pose proof (run_charge c fx m ops1 (init_state c) H0) as [G1 _].
-  pose proof (run_charge c fx m ops2 _ G1) as [G2 G3].
+  intros ops1 ops2 ->. subst st. rewrite run_app. cbn [fst]. destruct (no_reset_app _ _ Hnr) as [Hn1 Hn2].
+  pose proof (run_charge c fx m ops1 (init_state c) H0 Hn1) as [G1 _].
+  pose proof (run_charge c fx m ops2 _ G1 Hn2) as [G2 G3].
   assert (0 <= handed_sum ops2 (snd (run c fx m (fst (run c fx m (init_state c) ops1)) ops2))) as G4.
   { clear. generalize (snd (run c fx m (fst (run c fx m (init_state c) ops1)) ops2)).
     induction ops2 as [|o r IH]; intros [|v vs]; cbn [handed_sum]; try lia.
@@ -313,11 +322,11 @@ Proof.
     destruct (fst (readPtr strict m rl sid s paddr depth)) eqn:E; [|lia|lia]. rewrite (H2 a eq_refl). lia.
 Qed.
 
-Lemma step_exact c fx m st o : (forall h dcap pcap fuel, o <> OWalk h dcap pcap fuel) ->
+Lemma step_exact c fx m st o : (forall h dcap pcap fuel, o <> OWalk h dcap pcap fuel) -> is_reset o = false ->
   rs_rl (fst (step c fx m st o)) + handed o (snd (step c fx m st o)) = rs_rl st \/
   (rs_rl (fst (step c fx m st o)) = 0 /\ snd (step c fx m st o) = VPtr Err).
 Proof.
-  intros Hnw. destruct o; cbn [step]; try (left; cbn [fst snd handed push rs_rl]; lia).
+  intros Hnw Hnr. destruct o; try discriminate Hnr; cbn [step]; try (left; cbn [fst snd handed push rs_rl]; lia).
   - assert (exact_or_refused (rs_rl st) (root c m (rs_rl st))) as H.
     { unfold root. destruct (lookup_segment m 0); try (left; cbn; lia).
       dif; [left; cbn [fst snd]; destruct (cfg_root c); lia|apply readPtr_exact]. }
@@ -408,6 +417,7 @@ Definition step_lvl (lv : list Z) (o : op) : list Z :=
   | ORoot => lv ++ [1]
   | OSPtr h _ | OPLAt h _ => lv ++ [lvl_of lv h + 1]
   | OLStruct h _ => lv ++ [lvl_of lv h]
+  | OReset _ => []        (* all handles are dropped *)
   | _ => lv
   end.
 Definition run_lvl (ops : list op) : list Z := fold_left step_lvl ops [].
@@ -494,6 +504,9 @@ Proof.
     + unfold ptrlist_at, primitiveElem in Er. rewrite Vp in Er. cbn [negb orb] in Er. inversion Er.
   - (* walk: handles unchanged *)
     destruct (walk _ _ _ _ _ _ _ _) as [t rl]. cbn [fst]. exact Hinv.
+  - (* reset: no handle is left *)
+    cbn [fst]. split; [reflexivity|]. intros h0. unfold handle. cbn [rs_handles].
+    destruct (Z.to_nat h0); cbn; discriminate.
 Qed.
 
 Lemma run_depth c fx m : 1 <= depth_limit c -> fx_depth fx = true ->
@@ -1016,4 +1029,58 @@ Proof.
     split; [lia|]. destruct (p_valid q); lia.
   - lia.
   - destruct Hw.
+Qed.
+
+(* ------------------------------------------------------------------ reused messages *)
+(* Message.Reset / Decoder.ReuseBuffer: an op list with resets is a sequence of incarnations.
+   For EVERY op list [pre ++ OReset true :: inc ++ post] (pre and post arbitrary, resets
+   included; inc the ops up to the next reset):
+   - right after the reset the budget is exactly Message.initReadLimit's value (the configured
+     TraverseLimit, or the 64 MiB default when it is 0) and no handle survives,
+   - within the incarnation the budget is never negative and the read sizes handed out sum to
+     at most that value,
+   - the observations of [inc] inside the whole run are those of the incarnation.
+   The first incarnation (before any reset) is traversal_bound_seq. *)
+Theorem traversal_bound_incarnations c fx m pre inc post : 0 <= cfg_T c -> no_reset inc = true ->
+  let st0 := fst (run c fx m (init_state c) (pre ++ [OReset true])) in
+  let r := run c fx m st0 inc in
+  rs_rl st0 = init_rlimit c /\ rs_handles st0 = [] /\
+  0 <= rs_rl (fst r) /\
+  handed_sum inc (snd r) <= init_rlimit c - rs_rl (fst r) /\
+  handed_sum inc (snd r) <= init_rlimit c /\
+  run_ops c fx m (pre ++ OReset true :: inc ++ post) =
+    snd (run c fx m (init_state c) pre) ++ VNum (Ok (init_rlimit c)) :: snd r ++ snd (run c fx m (fst r) post).
+Proof.
+  intros HT Hnr st0 r.
+  assert (st0 = mkRS [] (init_rlimit c)) as E0.
+  { subst st0. rewrite run_app. cbn [fst run step reset_limit]. reflexivity. }
+  pose proof (run_charge c fx m inc st0 ltac:(rewrite E0; cbn [rs_rl]; apply init_rlimit_nonneg; exact HT) Hnr) as [H1 H2].
+  fold r in H1, H2. rewrite E0 in H2. cbn [rs_rl] in H2.
+  split; [rewrite E0; reflexivity|]. split; [rewrite E0; reflexivity|].
+  split; [exact H1|]. split; [lia|]. split; [lia|].
+  unfold run_ops. fold (init_state c). rewrite run_app. cbn [snd]. f_equal.
+  cbn [run step reset_limit]. rewrite <- E0. rewrite (run_app c fx m inc post st0). fold r. reflexivity.
+Qed.
+
+(* sensitivity: the variant of Message.Reset that re-arms the budget with the default instead of
+   the configured TraverseLimit (OReset false).  T = 8 admits exactly one dereference of the
+   8-byte root struct; after the reset the variant has 64 MiB again, so the second incarnation
+   hands out 16 > T bytes. *)
+Definition obs_code (v : oval) : Z :=
+  match v with VPtr (Ok _) => 1 | VPtr Err => 2 | VNum (Ok n) => n | _ => 0 end.
+
+Example reset_default_refuted :
+  let c := mkCfg 8 0 true true in
+  let fx := mkFix true true true in
+  let m := [[0;0;0;0;0;0;1;0;  0;0;0;0;0;0;0;0]] in
+  msg_ok m /\
+  (* repaired: budget T after the reset, the second Root of the incarnation is refused (2) *)
+  map obs_code (run_ops c fx m [ORoot; OReset true; ORoot; ORoot]) = [1; 8; 1; 2] /\
+  handed_sum [ORoot; ORoot] (skipn 2 (run_ops c fx m [ORoot; OReset true; ORoot; ORoot])) = 8 /\
+  (* seeded variant: 64 MiB after the reset, both succeed: 16 bytes handed out with T = 8 *)
+  map obs_code (run_ops c fx m [ORoot; OReset false; ORoot; ORoot]) = [1; 67108864; 1; 1] /\
+  handed_sum [ORoot; ORoot] (skipn 2 (run_ops c fx m [ORoot; OReset false; ORoot; ORoot])) = 16.
+Proof.
+  cbv zeta. split; [repeat constructor; cbn; try lia; unfold maxSegmentSize; lia|].
+  repeat split; vm_compute; reflexivity.
 Qed.
